@@ -69,7 +69,7 @@ def floors(tier):
 
 def _own_floors(tier):
     f = {"histories": 1500, "edits:applied": 15000}
-    for e in ("add", "insert", "insert2", "remove", "replace", "unwrap", "group", "remove_identity", "addreg", "copy", "assign_noise", "rejected"):
+    for e in ("add", "insert", "insert2", "remove", "replace", "unwrap", "group", "remove_identity", "addreg", "copy", "assign_noise", "rejected", "noisy_wrapper_unwrap"):
         f["edit:" + e] = 100
     f["histories:len>=100"] = 1 if tier == "quick" else 200
     f["checks:deep"] = 5000
@@ -212,6 +212,31 @@ class History:
                 probs = dagmon.check(noisy, None, deep=True)
                 if probs:
                     ctx.violation("assign_noise_result_inconsistent", self.case(), {"problems": probs[:5]}, key="dag:assign_noise")
+            elif kind == "noisy_wrapper_unwrap":
+                # on a copy (the history itself goes on unchanged): a wrapper carrying ONE noise object for the whole wrapper is
+                # added on a register and the copy is unwrapped - the carrier Identity that unwrap() emits must sit on that register
+                import graphiq.noise.noise_models as nm
+                import graphiq.circuit.ops as gops
+                qregs = [w for w in prog.wires if w[0] in "ep"]
+                if not qregs:
+                    return False
+                w = qregs[d[1] % len(qregs)]
+                c2 = circ.copy()
+                noise = [nm.DepolarizingNoise(0.1), nm.PauliError("X"), nm.PhotonLoss(0.1)][d[1] % 3]
+                noise.noise_parameters["After gate"] = bool(d[1] % 2)
+                c2.add(gops.OneQubitGateWrapper([gops.Hadamard, gops.Phase][: 1 + d[1] % 2], register=w[1], reg_type=w[0], noise=noise))
+                before = dict((t, len(v)) for t, v in c2.register.items())
+                c2.unwrap_nodes()
+                after = dict((t, len(v)) for t, v in c2.register.items())
+                probs = dagmon.check(c2, None, deep=True)
+                if after != before:
+                    probs = [f"register counts changed {before} -> {after}"] + probs
+                self.desc.append(d)
+                if probs:
+                    ctx.violation("dag_inconsistent", self.case(), {"after": d, "problems": probs[:5]}, key="dag:noisy_wrapper_unwrap:" + probs[0].split(":")[0][:40])
+                    self.alive = False
+                ctx.count("edit:noisy_wrapper_unwrap")
+                return True
             elif kind == "rejected":
                 # an edit the API documents as rejected (AssertionError / ValueError) on registers that all exist: the circuit
                 # must come out exactly as it went in, and the history goes on
@@ -405,6 +430,8 @@ def run_random(rng, lmax, ctx):
                 h.apply(["addreg", ["e", "p", "c"][int(rng.integers(3))]])
         elif u < 0.97:
             h.apply(["copy"])
+        elif u < 0.978:
+            h.apply(["noisy_wrapper_unwrap", int(rng.integers(1000))])
         elif u < 0.985:
             h.apply(["rejected", ["insert_wrong_edge_count", "insert2_one_edge", "replace_other_register", "add_skipping_register"][int(rng.integers(4))], int(rng.integers(1000))])
         else:
